@@ -700,7 +700,7 @@ fn check_cstr(st: &mut St, c: &CStr, src: &str, what: &str) {
 
 /// constructors / decoders: one-shot differential checks
 fn ctor_checks<'b, 'a>(st: &mut St, a: Sh<'b, 'a>, r: &Rec) {
-    let sel = r.b(4) % 10;
+    let sel = r.b(4) % 13;
     st.ops += 1;
     match sel {
         0 | 1 => {
@@ -853,6 +853,75 @@ fn ctor_checks<'b, 'a>(st: &mut St, a: Sh<'b, 'a>, r: &Rec) {
                     st.fail("C09/fmt", format!("{what}: alloc_str {:?} != {t:?}", &*b));
                 }
             }
+        }
+        10 => {
+            // BumpBox<[u8]> -> BumpBox<str>
+            let b = bytes_input(r);
+            let what = format!("BumpBox::<str>::from_utf8({b:x?})");
+            st.note(|| what.clone());
+            let std_ok = std::str::from_utf8(&b).is_ok();
+            if !std_ok {
+                st.class("malformed_input");
+            }
+            let Ok(bx) = a.try_alloc_slice_copy(&b) else { return };
+            match BumpBox::<str>::from_utf8(bx) {
+                Ok(sx) => {
+                    if !std_ok || sx.as_bytes() != b.as_slice() {
+                        st.fail("C09/from-utf8", format!("{what}: accepted invalid UTF-8 or changed the bytes"));
+                    }
+                }
+                Err(e) => {
+                    if std_ok {
+                        st.fail("C09/from-utf8", format!("{what}: rejected valid UTF-8"));
+                    }
+                    if e.into_bytes()[..] != b[..] {
+                        st.fail("C09/from-utf8", format!("{what}: the error does not give the bytes back"));
+                    }
+                }
+            }
+        }
+        11 => {
+            // a full fixed string from an existing str: no room, contents kept
+            let t = text(r, 8, r.b(5) as usize % 8);
+            let what = format!("FixedBumpString::from_init({t:?})");
+            st.note(|| what.clone());
+            let Ok(bx) = a.try_alloc_str(&t) else { return };
+            let mut f = FixedBumpString::from_init(bx);
+            if f.as_str() != t || f.capacity() != t.len() {
+                st.fail("C09/contents", format!("{what}: {:?} cap {}", f.as_str(), f.capacity()));
+            }
+            if f.try_push('x').is_ok() {
+                st.fail("C09/fixed-never-grows", format!("{what}: a full fixed string accepted a push"));
+            }
+            if f.as_str() != t {
+                st.fail("C07/collection-state-after-failure", format!("{what}: failed push changed the contents to {:?}", f.as_str()));
+            }
+            if let Some(c) = t.chars().last() {
+                if f.pop() != Some(c) || f.try_push(c).is_err() || f.as_str() != t {
+                    st.fail("C09/contents", format!("{what}: pop + push of the last character gave {:?}", f.as_str()));
+                }
+            }
+        }
+        12 => {
+            // an empty fixed string over uninitialised bytes: takes exactly its capacity
+            let t = text(r, 8, 1 + r.b(5) as usize % 8);
+            let cap = t.len() + r.b(6) as usize % 3;
+            let what = format!("FixedBumpString::from_uninit({cap} bytes) then push_str({t:?})");
+            st.note(|| what.clone());
+            let Ok(u) = a.try_alloc_uninit_slice::<u8>(cap) else { return };
+            let mut f = FixedBumpString::from_uninit(u);
+            if !f.is_empty() || f.capacity() != cap {
+                st.fail("C09/contents", format!("{what}: new string has len {} cap {}", f.len(), f.capacity()));
+            }
+            if f.try_push_str(&t).is_err() || f.as_str() != t {
+                st.fail("C09/contents", format!("{what}: contents {:?}", f.as_str()));
+            }
+            let more = "é".repeat(2);
+            let fits = t.len() + more.len() <= cap;
+            if f.try_push_str(&more).is_ok() != fits {
+                st.fail("C09/fixed-never-grows", format!("{what}: pushing {} more bytes into capacity {cap}: fits = {fits}", more.len()));
+            }
+            utf8_ok(st, f.as_bytes(), &what);
         }
         _ => {
             let t = text(r, 8, r.b(5) as usize % 8);
